@@ -10,8 +10,10 @@ EXTENDS Integers, Sequences, TLC, Json
 
 CONSTANTS MaxLines, MaxRunes, Widths, Pres
 
-VARIABLES lines, slot, pre, done
-vars == <<lines, slot, pre, done>>
+VARIABLES lines, slot, pre, done,
+          eol,       \* line ending of the whole file: "lf" or "crlf"
+          flavour    \* "ident": lines are identifiers; "brace": the expression contains a composite literal { }
+vars == <<lines, slot, pre, done, eol, flavour>>
 
 Slots == {"package", "signature", "if", "elseif", "for", "switch", "case", "string", "attr", "boolattr",
           "spread", "condattr", "call", "blockcall", "rawgo", "script", "cssvalue", "gobefore", "goafter",
@@ -25,6 +27,14 @@ SingleLineOnly == {"package"}
 \* slots in which other text can stand on the same source line in front of the expression
 PreSlots == {"if", "for", "switch", "string", "attr", "boolattr", "spread", "condattr", "call", "blockcall",
              "rawgo", "script", "classattr", "hrefattr", "styleattr", "onattr"}
+\* slots whose expression stands inside templ braces or parentheses, where a Go composite literal is unambiguous
+BraceSlots == {"string", "attr", "boolattr", "spread", "call", "blockcall", "classattr", "hrefattr", "styleattr",
+               "onattr", "rawgo", "script"}
+\* the two extra dimensions are explored where they matter: CRLF for expressions spanning lines (without text in
+\* front), composite literals for one-line expressions
+Variant(s, nl, np, e, f) == /\ (e = "crlf" => (nl > 1 /\ np = 0))
+                            /\ (f = "brace" => (s \in BraceSlots /\ nl = 1 /\ np = 0))
+                            /\ ~(e = "crlf" /\ f = "brace")
 Applicable(s, nl, np) == /\ (s \in SingleLineOnly => nl = 1)
                          /\ (np > 0 => s \in PreSlots)
 
@@ -32,28 +42,32 @@ Runes == LET RECURSIVE Sum(_)
              Sum(ls) == IF ls = <<>> THEN 0 ELSE Len(Head(ls)) + Sum(Tail(ls))
          IN  Sum(lines)
 
-Init == lines = << <<>> >> /\ slot = "" /\ pre = <<>> /\ done = FALSE
+Init == lines = << <<>> >> /\ slot = "" /\ pre = <<>> /\ done = FALSE /\ eol = "lf" /\ flavour = "ident"
 
 Rune(w) == /\ ~done /\ Len(lines[Len(lines)]) < MaxRunes
            /\ lines' = [lines EXCEPT ![Len(lines)] = Append(@, w)]
-           /\ UNCHANGED <<slot, pre, done>>
+           /\ UNCHANGED <<slot, pre, done, eol, flavour>>
 Line == /\ ~done /\ Len(lines) < MaxLines
         /\ lines' = Append(lines, <<>>)
-        /\ UNCHANGED <<slot, pre, done>>
-Finish(s, p) == /\ ~done /\ Runes > 0 /\ Applicable(s, Len(lines), Len(p))
-                /\ slot' = s /\ pre' = p /\ done' = TRUE
+        /\ UNCHANGED <<slot, pre, done, eol, flavour>>
+Finish(s, p, e, f) == /\ ~done /\ Runes > 0 /\ Applicable(s, Len(lines), Len(p))
+                /\ Variant(s, Len(lines), Len(p), e, f)
+                /\ slot' = s /\ pre' = p /\ done' = TRUE /\ eol' = e /\ flavour' = f
                 /\ UNCHANGED lines
 
 Next == \/ \E w \in Widths : Rune(w)
         \/ Line
-        \/ \E s \in Slots, p \in Pres : Finish(s, p)
+        \/ \E s \in Slots, p \in Pres, e \in {"lf", "crlf"}, f \in {"ident", "brace"} : Finish(s, p, e, f)
 
 \* simulation: random draws, one case per behaviour
 SimNext == \/ /\ ~done
               /\ \E k \in {RandomElement(1..8)} :
                     IF k <= 5 THEN \E w \in {RandomElement(Widths)} : Rune(w)
                     ELSE IF k <= 7 THEN Line
-                    ELSE \E s \in {RandomElement(Slots)}, p \in {RandomElement(Pres)} : Finish(s, p)
+                    ELSE \E s \in {RandomElement(Slots)}, p \in {RandomElement(Pres)},
+                            e \in {RandomElement({"lf", "lf", "crlf"})}, f \in {RandomElement({"ident", "ident", "brace"})} :
+                              \/ Finish(s, p, e, f)
+                              \/ (~Variant(s, Len(lines), Len(p), e, f) /\ Finish(s, p, "lf", "ident"))
 
-EmitCase == done => PrintT(<<"CASE", ToJson([slot |-> slot, pre |-> pre, shape |-> lines])>>)
+EmitCase == done => PrintT(<<"CASE", ToJson([slot |-> slot, pre |-> pre, shape |-> lines, eol |-> eol, flavour |-> flavour])>>)
 =============================================================================
